@@ -89,6 +89,10 @@ def _fault_runs(ctx, binary, ppath, plans, reps, only, tag, test, nexp, cov):
                 results.append(x["outcome"])
                 if x["outcome"] not in ("resp", "err"):
                     found.append("outcome:" + x["outcome"])
+                elif x["outcome"] == "err" and c["kind"] in ("with-reply", "srvreq"):
+                    # these are no failures of the exchange: the complete reply reaches the client (together with the end of the stream /
+                    # after a message of the server's own), so the call has its response
+                    found.append("error-although-the-complete-reply-arrived:exchange-%d" % e)
                 elif x["outcome"] == "err":
                     hit = c["pt"] != "none" and (e >= c["exch"] if c["persist"] else e == c["exch"] + (1 if c["pt"] == "after-reply" else 0))
                     if not hit:
